@@ -37,6 +37,9 @@ type Op struct {
 	Data string       `json:"data,omitempty"` // query data, hex
 	QH   int64        `json:"qh,omitempty"`   // query height
 	Only string       `json:"only,omitempty"` // execute only on the replica with this name (injections)
+	// (deliver) the signed transaction these bytes were made from by changing only bytes that are not executed: the
+	// reference run executes THAT transaction (the delivered bytes must do exactly what it does)
+	RefTx string `json:"ref_tx,omitempty"`
 	// (check) the request is a re-check: what the mempool sends after a commit for every transaction still waiting
 	Recheck bool `json:"recheck,omitempty"`
 }
@@ -170,7 +173,12 @@ func (r *Replica) Exec(op *Op) J {
 		var ref *RefResult
 		var refTx *rctypes.Trx
 		if r.Opts.EVM && r.CurHdr != nil {
-			Call(func() { ref, refTx = r.reference(bz) })
+			refBz := bz
+			if op.RefTx != "" {
+				refBz = unhex(op.RefTx)
+				ev["ignoredBytes"] = true
+			}
+			Call(func() { ref, refTx = r.reference(refBz) })
 		}
 		var resp abcitypes.ResponseDeliverTx
 		var bridge []J
